@@ -207,8 +207,9 @@ def classify_tx(hexes):
 
 def monitors(chk, case, items, obs):
     ''' at most once per identity; first match; admin endpoint; no route ⇒ nothing '''
-    routes, tx_routes = case['rx'], case['tx']
+    routes, tx_routes = case['rx'], list(case['tx'])
     accepted = set()
+    reported = {}        # report subject (source, timestamp) -> number of status reports seen on the wire
     assigned = set()     # numbers the agent gave to blocks it added in earlier forwards
     attempts = 0         # earlier idle _do_fwd runs in this history
     by_item = {}
@@ -217,6 +218,7 @@ def monitors(chk, case, items, obs):
     for ix, it in enumerate(items):
         win = by_item.get(ix, [])
         p = it['b']['pri']
+        tx_routes = tx_routes + [tuple(r) for r in it.get('add_tx', [])]     # routes that appeared by now
         main = [o for o in win if not o.get('reasm')]
         ndel = sum(len(o['delivered']) for o in main)
         txs = [h for o in main for h in o['tx'] + o.get('frag_tx', [])]
@@ -253,6 +255,25 @@ def monitors(chk, case, items, obs):
                               % (dest, routes, act, want_del, want_fw, ndel, len(fw)), case)
             if len(rp) > 1:
                 chk.violation('C10:more-than-one-report', 'identity %s reported %d times' % (idt, len(rp)), case)
+            # what is handed over while this bundle is processed is this bundle
+            strangers = [A.ident_of(d.pri, d.blocks) for d in fw if A.ident_of(d.pri, d.blocks) != idt]
+            if strangers:
+                chk.violation('C10:other-bundle-forwarded-instead',
+                              'while %s was processed the node transmitted %s' % (idt, strangers), case)
+        for d in rp:
+            subj = A.report_subject(d)
+            key = json.dumps(subj)
+            reported[key] = reported.get(key, 0) + 1
+            if subj is not None and subj != (A.eid_text(p['src']), list(p['ts'])):
+                chk.violation('C10:report-about-another-bundle',
+                              'while %s was processed a status report about %s was sent' % (idt, subj), case)
+            # a report names source + timestamp only: fragments and look-alikes of one bundle share a subject,
+            # so the bound is the number of accepted identities with that source + timestamp
+            bound = len([i for i in accepted if subj is not None and i[0] == subj[0] and list(i[1:3]) == subj[1]])
+            if reported[key] > max(bound, 1):
+                chk.violation('C10:more-than-one-report', 'subject %s reported %d times over the history, %d '
+                              'identities with that source and timestamp were accepted' % (subj, reported[key], bound),
+                              case)
         if any(o['k'] == 'fwd' for o in main):
             attempts += 1
         for d in fw:
@@ -291,8 +312,8 @@ def run_case(chk, case):
 
 def case_json(case):
     return {'rx': case['rx'], 'tx': case['tx'],
-            'items': [{'b': it['b'], 'data': it['data'].hex(), 'now': it['now'], 'crc_ok': it['crc_ok']}
-                      for it in case['items']]}
+            'items': [dict({'b': it['b'], 'data': it['data'].hex(), 'now': it['now'], 'crc_ok': it['crc_ok']},
+                           **{k: it[k] for k in ('add_tx', 'params') if k in it}) for it in case['items']]}
 
 
 def check_batch(chk, batch):
@@ -320,7 +341,9 @@ def check_batch(chk, batch):
 
 def run(chk):
     chk.prove('DtnVerif.Props.C10')
-    chk.cov['rule'] = ('one long history per run (two bundles, ~300 other identities, the two again); '
+    chk.cov['rule'] = ('directed histories: a failing forward followed by later forwards (a transmit route may '
+                       'appear in between); an unexpected ACME record for the own endpoint (the admin handler '
+                       'deletes a bundle that carries deliver); one long history per run (two bundles, ~300 other identities, the two again); '
                        'histories of 1..12 received bundles (fresh / exact repeats / look-alikes differing in one '
                        'identity component / fragments incl. complete sets that reassemble / own-source / bad CRC) '
                        'x random receive tables of 0..4 routes over a 12-pattern regex family; every history is '
@@ -348,6 +371,11 @@ def run(chk):
         fix, events, obs = run_case(chk, case)
         batch.append((case, events, obs, fix.seen()))
         chk.count('long-history')
+    for i in range(12 if chk.tier == 'quick' else 300):
+        case = blocked_queue_history(rng) if i % 2 == 0 else acme_history(rng)
+        fix, events, obs = run_case(chk, case)
+        batch.append((case, events, obs, fix.seen()))
+        chk.count('directed:%s' % ('failed-forward-then-more' if i % 2 == 0 else 'acme-rejected'))
     for i in range(n_cases):
         n = rng.choice([1, 2, 3, 4, 6, 8, 12]) if i % 7 else 12
         tx = [('.*', None)] if rng.random() < 0.85 else [(r'dtn://a/.*', None), (r'dtn://rpt/.*', None)]
